@@ -5,10 +5,13 @@ import time
 from proto import run_driver, diff_streams, split_cases
 
 
-def correspond(lines, impl_run, abs_tol=None):
+def correspond(lines, impl_run, abs_tol=None, impl_out=None, impl_s=None):
     t0 = time.time()
-    impl_out = impl_run(lines)
+    if impl_out is None:
+        impl_out = impl_run(lines)
     t1 = time.time()
+    if impl_s is not None:
+        t0 = t1 - impl_s
     model_out = run_driver(lines)
     t2 = time.time()
     bad = diff_streams(lines, impl_out, model_out, abs_tol)
